@@ -41,7 +41,7 @@ Proof.
   cbn. apply IH.
 Qed.
 Lemma diff_model c univ start cs : diff (model_trace c univ start cs) = 0%N.
-Proof. unfold diff, model_trace. cbn. apply diff_model_items. Qed.
+Proof. unfold diff, model_trace. cbn [t_init t_cfg t_univ t_start t_items]. rewrite obs_eqb_refl. apply diff_model_items. Qed.
 
 (* ---- lookups in the model's observation ---- *)
 Lemma getd_map_in (f : addr -> Z) univ a : In a univ -> getd (map (fun x => (x, f x)) univ) a = f a.
@@ -90,20 +90,79 @@ Proof.
   unfold allow_obs, allowance_data, entry_live_until. cbn. destruct (0 <? start); reflexivity.
 Qed.
 
-(* ---- an Advance leaves the flavour's extra getters alone ---- *)
-Lemma advance_keeps_extras_fail prev cur cl : advance_keeps_extras prev cur cl Fail = true.
-Proof. destruct cl; reflexivity. Qed.
-Lemma advance_keeps_extras_model c univ s cl s1 v evs prev :
-  exec c s cl = Ok (s1, v, evs) ->
-  o_extra prev = [] \/ o_extra prev = extras c univ s ->
-  advance_keeps_extras prev (observe c univ s1) cl (Ok v) = true.
+(* ---- the shared monitor clauses hold on the model's own observations ---- *)
+Lemma nodupb_NoDup l : nodupb l = true -> NoDup l.
 Proof.
-  intros E P. destruct cl; try reflexivity. cbn [advance_keeps_extras].
-  destruct P as [P|P]; rewrite P; [reflexivity|].
-  cbn [exec] in E. inv_ok. cbn [o_extra observe].
-  replace (extras c univ (w_now s (now s + n))) with (extras c univ s).
-  - rewrite list_eqb_refl; [apply orb_true_r|apply Z.eqb_refl].
-  - unfold extras. destruct (c_flav c); reflexivity.
+  induction l as [|a r IH]; cbn; [constructor|]. intros H. apply andb_true_iff in H. destruct H as [H1 H2].
+  constructor; auto. intros Hi. apply mem_In in Hi. rewrite Hi in H1. discriminate.
+Qed.
+
+Lemma obs_shape_observe c univ s : core_inv (tk s) -> obs_shape_ok univ (observe c univ s) = true.
+Proof.
+  intros [I A]. unfold obs_shape_ok, observe. cbn [o_bal o_allow o_supply].
+  repeat (apply andb_true_iff; split).
+  - rewrite map_map. cbn. rewrite map_id. apply list_eqb_refl. apply N.eqb_refl.
+  - apply forallb_forall. intros [p v] H. apply filter_In in H. destruct H as [H _].
+    apply in_map_iff in H. destruct H as (q & E & Hq). injection E; intros; subst. cbn.
+    apply existsb_exists. exists p. split; auto. apply pkey_eqb_refl.
+  - apply Z.leb_le. apply I.
+  - apply forallb_forall. intros [a v] H. apply in_map_iff in H. destruct H as (q & E & _).
+    injection E; intros; subst. cbn. apply Z.leb_le. apply I.
+  - apply forallb_forall. intros [p v] H. apply filter_In in H. destruct H as [H _].
+    apply in_map_iff in H. destruct H as (q & E & _). injection E; intros; subst. cbn.
+    apply Z.leb_le. destruct p as [o sp]. apply (allow_inv_reported (now s) (tk s) o sp A).
+Qed.
+
+Lemma filter_nondefault_init c univ start :
+  o_allow (observe c univ (init start)) = [].
+Proof.
+  unfold observe. cbn [o_allow]. induction (pairs univ) as [|p r IH]; cbn; auto.
+  rewrite allow_obs_init. unfold nondefault. cbn. rewrite z3_eqb_refl. cbn. exact IH.
+Qed.
+
+Lemma genesis_observe c univ start : nodupb univ = true -> genesis_ok univ start (observe c univ (init start)) = true.
+Proof.
+  intros ND. unfold genesis_ok. rewrite ND, (obs_shape_observe c univ (init start) core_inv_tok0).
+  rewrite filter_nondefault_init. cbn [andb o_now o_supply observe now init]. rewrite !Z.eqb_refl. cbn [andb].
+  rewrite andb_true_r. apply forallb_forall. intros [a v] H. cbn [o_bal] in H.
+  apply in_map_iff in H. destruct H as (q & E & _). injection E; intros; subst. reflexivity.
+Qed.
+
+Lemma same_all_refl univ o : same_all univ o o = true.
+Proof.
+  unfold same_all. rewrite Z.eqb_refl. cbn.
+  repeat (apply andb_true_iff; split).
+  - apply forallb_forall. intros. apply Z.eqb_refl.
+  - apply forallb_forall. intros. apply z3_eqb_refl.
+  - apply list_eqb_refl. apply Z.eqb_refl.
+Qed.
+
+Lemma extras_w_now c univ s v : extras c univ (w_now s v) = extras c univ s.
+Proof. unfold extras. destruct (c_flav c); reflexivity. Qed.
+
+Lemma common_ok_model c univ s cl : wf_host (c_host c) -> core_inv (tk s) ->
+  forallb (fun a => mem a univ) (call_addrs_all cl) = true ->
+  let '(s', out, evs) := step c s cl in
+  common_ok univ (observe c univ s) (cl, out, evs, observe c univ s') = true.
+Proof.
+  intros W C Wc. unfold step. destruct (exec c s cl) as [[[s1 v] evs]|] eqn:E.
+  - rewrite (observe_w_hist c univ s1).
+    destruct (exec_balances _ _ _ _ _ _ W C E) as (_ & _ & C1).
+    pose proof (exec_spec _ _ _ _ _ _ E) as (Sp & N & _).
+    unfold common_ok. rewrite (obs_shape_observe c univ s1 C1), Wc. cbn [andb].
+    assert (In_ : forall a, In a (call_addrs_all cl) -> In a univ).
+    { intros a Ha. rewrite forallb_forall in Wc. apply mem_In. apply Wc. exact Ha. }
+    destruct cl; unfold now_after in N; cbn [o_now observe]; rewrite N, Z.eqb_refl; cbn [andb]; try reflexivity.
+    + (* Advance *) cbn [exec] in E. inv_ok. cbn [o_supply o_extra observe tk w_now]. rewrite Z.eqb_refl, extras_w_now.
+      rewrite (list_eqb_refl Z.eqb); [|apply Z.eqb_refl]. rewrite andb_true_r. cbn [andb].
+      apply forallb_forall. intros a Ha. rewrite !bal_of_observe by auto. apply Z.eqb_refl.
+    + (* QBalance *) destruct Sp as (-> & -> & _). rewrite same_all_refl, andb_true_r. apply Z.eqb_eq.
+      symmetry. apply bal_of_observe. apply In_. cbn. auto.
+    + (* QSupply *) destruct Sp as (-> & -> & _). rewrite same_all_refl, andb_true_r. apply Z.eqb_refl.
+    + (* QAllowance *) destruct Sp as (-> & -> & _). rewrite same_all_refl, andb_true_r. apply Z.eqb_eq.
+      rewrite allow_of_observe; [reflexivity|]. apply in_pairs; apply In_; cbn; auto.
+  - unfold common_ok. rewrite (obs_shape_observe c univ s C), Wc. cbn [andb].
+    rewrite same_all_refl. destruct cl; cbn [o_now observe]; rewrite Z.eqb_refl; reflexivity.
 Qed.
 
 (* ---- sums over a universe outside of which every balance is zero ---- *)
